@@ -12,12 +12,20 @@ pub struct P {
     pub len: usize,
     pub kind: Kind,
     pub single: bool,
+    /// 0 = the cipher crate's own contexts; 1 / 2 = a caller-supplied rank-2 closure passed to
+    /// `*_with_backend` / `process_with_backend`: full parallel groups through `*_par_blocks`, then the
+    /// remainder block by block (1) or through `*_tail_blocks` only if it is non-empty (2)
+    pub closure: u8,
 }
 pub fn p(len: usize, kind: Kind) -> P {
-    P { len, kind, single: false }
+    P { len, kind, single: false, closure: 0 }
+}
+/// a piece processed in place through a caller-supplied closure (see `P::closure`)
+pub fn pc(len: usize, mode: u8) -> P {
+    P { len, kind: Kind::InPlace, single: false, closure: mode }
 }
 pub fn ps(pieces: &[P]) -> String {
-    pieces.iter().map(|p| format!("{}{}{}", p.len, if p.single { "s" } else { "" }, match p.kind { Kind::InPlace => "", Kind::B2b => "b", Kind::InOut => "x" })).collect::<Vec<_>>().join(",")
+    pieces.iter().map(|p| format!("{}{}{}{}", p.len, if p.single { "s" } else { "" }, match p.closure { 0 => "", 1 => "c", _ => "t" }, match p.kind { Kind::InPlace => "", Kind::B2b => "b", Kind::InOut => "x" })).collect::<Vec<_>>().join(",")
 }
 
 pub struct FeOut {
@@ -79,7 +87,10 @@ pub fn fe_bm<'a>(cfg: &'a Cfg, d: &'a BlockModeDesc) -> Fe<'a> {
                 let o0 = off;
                 let inp = take(data, &mut off, pc.len);
                 let mut ob = outbuf(pc.kind, inp, prefill, o0);
-                if pc.single {
+                if pc.closure != 0 {
+                    ob = inp.to_vec();
+                    obj.many_closure(pc.closure, &mut ob);
+                } else if pc.single {
                     assert_eq!(pc.len, d.mbs, "harness: single piece must be one block");
                     obj.one(pc.kind, inp, &mut ob);
                 } else if obj.many(pc.kind, inp, &mut ob).is_err() {
@@ -162,7 +173,9 @@ pub fn fe_core<'a>(cfg: &'a Cfg, d: &'a CoreDesc, write: bool) -> Fe<'a> {
                 if write {
                     // dirty keystream buffer: write_* must overwrite it completely
                     let mut ks = prefill[o0..o0 + pc.len].to_vec();
-                    if pc.single {
+                    if pc.closure != 0 {
+                        obj.write_blocks_closure(pc.closure, &mut ks);
+                    } else if pc.single {
                         obj.write_block(&mut ks);
                     } else {
                         obj.write_blocks(&mut ks);
